@@ -1,11 +1,11 @@
-mod daemon;
+mod agentrun;
 mod build;
 mod cands;
+mod daemon;
 mod evalseq;
-mod agentrun;
 mod fakecli;
-mod fakejunos;
 mod fakeirrd;
+mod fakejunos;
 mod frame;
 mod fuzz;
 mod hello;
@@ -13,15 +13,15 @@ mod instev;
 mod logs;
 mod memtransport;
 mod meta;
+mod plan;
 mod reply;
 mod sched;
-mod xmltok;
 mod ser;
-mod plan;
 mod sshserver;
 mod tlsserver;
 mod util;
 mod xmlstrict;
+mod xmltok;
 
 use util::Opts;
 
@@ -37,22 +37,51 @@ fn main() {
         std::process::exit(2);
     }
     let op = args[1].clone();
-    let mut opts = Opts { tier: "quick".into(), seed: 1, out: "/verif/work".into(), replay: None, extra: vec![] };
+    let mut opts = Opts {
+        tier: "quick".into(),
+        seed: 1,
+        out: "/verif/work".into(),
+        replay: None,
+        extra: vec![],
+    };
     let mut i = 2;
     while i < args.len() {
         match args[i].as_str() {
-            "--tier" => { opts.tier = args[i + 1].clone(); i += 2; }
-            "--seed" => { opts.seed = args[i + 1].parse().unwrap_or(1); i += 2; }
-            "--out" => { opts.out = args[i + 1].clone().into(); i += 2; }
-            "--replay" => { opts.replay = Some(args[i + 1].clone().into()); i += 2; }
-            _ => { opts.extra.push(args[i].clone()); i += 1; }
+            "--tier" => {
+                opts.tier = args[i + 1].clone();
+                i += 2;
+            }
+            "--seed" => {
+                opts.seed = args[i + 1].parse().unwrap_or(1);
+                i += 2;
+            }
+            "--out" => {
+                opts.out = args[i + 1].clone().into();
+                i += 2;
+            }
+            "--replay" => {
+                opts.replay = Some(args[i + 1].clone().into());
+                i += 2;
+            }
+            _ => {
+                opts.extra.push(args[i].clone());
+                i += 1;
+            }
         }
     }
     // sequential ops: a case that never returns is reported as that case (see util::start_monitor)
-    if ["meta", "sched", "cands", "instev", "daemon", "build", "ser", "plan"].contains(&op.as_str()) {
-        util::start_monitor(&opts, &op, std::time::Duration::from_secs(if opts.tier == "thorough" { 300 } else { 120 }));
+    if [
+        "meta", "sched", "cands", "instev", "daemon", "build", "ser", "plan",
+    ]
+    .contains(&op.as_str())
+    {
+        util::start_monitor(
+            &opts,
+            &op,
+            std::time::Duration::from_secs(if opts.tier == "thorough" { 300 } else { 120 }),
+        );
     }
-    match op.as_str() {
+    let run = std::panic::catch_unwind(std::panic::AssertUnwindSafe(|| match op.as_str() {
         "frame" => frame::main(&opts),
         "reply" => reply::main(&opts),
         "hello" => hello::main(&opts),
@@ -72,6 +101,13 @@ fn main() {
             eprintln!("unknown op {op}");
             std::process::exit(2);
         }
+    }));
+    if run.is_err() {
+        // the panic message has been printed by the default hook
+        if util::report_escaped_panic(&opts, &op) {
+            std::process::exit(0);
+        }
+        std::process::exit(101);
     }
     // worker threads abandoned by a watchdog must not keep the process alive
     std::process::exit(0);
